@@ -19,11 +19,105 @@ def NodeB (fin : Name → Bool) (nd : Node) : Prop :=
 def TrigIn (inp : Input) (td : TDef) : Prop :=
   ∀ l, td.loader = some l → ∀ d ∈ trigOf inp (inp.creatorOf l), d ∈ td.deps
 
+/-- once-only bookkeeping over (status map, trace): nothing is reported or started for a task whose status is still
+    `None`; nothing is reported while it is unfinished; at most one start and one terminal report per task -/
+structure CountOK (st : Name → RS) (ev : List Ev) : Prop where
+  fresh : ∀ n, st n = .none → ∀ e ∈ ev, e ≠ Ev.start n
+  noRep : ∀ n, (st n).finished = false → ∀ e ∈ ev, e.reports n = false
+  cntS : ∀ n, ev.count (Ev.start n) ≤ 1
+  cntR : ∀ n, ev.countP (Ev.reports n) ≤ 1
+
+def updSt (st : Name → RS) (n : Name) (x : RS) : Name → RS := fun k => if k = n then x else st k
+
+theorem CountOK.creator {st : Name → RS} {ev : List Ev} (h : CountOK st ev) (c : CId) :
+    CountOK st (Ev.creator c :: ev) := by
+  constructor
+  · intro n hn e he
+    rcases List.mem_cons.mp he with h1 | h1
+    · subst h1; intro h2; cases h2
+    · exact h.fresh n hn e h1
+  · intro n hn e he
+    rcases List.mem_cons.mp he with h1 | h1
+    · subst h1; rfl
+    · exact h.noRep n hn e h1
+  · intro n
+    have : (Ev.creator c == Ev.start n) = false := by simp
+    rw [List.count_cons, this]; simpa using h.cntS n
+  · intro n
+    have : Ev.reports n (Ev.creator c) = false := rfl
+    rw [List.countP_cons, this]; simpa using h.cntR n
+
+theorem CountOK.start {st : Name → RS} {ev : List Ev} (h : CountOK st ev) {n : Name} (hn : st n = .none) :
+    CountOK (updSt st n .run) (Ev.start n :: ev) := by
+  constructor
+  · intro m hm e he
+    have hmn : m ≠ n := by intro e1; subst e1; simp [updSt] at hm
+    have hm' : st m = .none := by simpa [updSt, hmn] using hm
+    rcases List.mem_cons.mp he with h1 | h1
+    · subst h1; intro h2; cases h2; exact hmn rfl
+    · exact h.fresh m hm' e h1
+  · intro m hm e he
+    rcases List.mem_cons.mp he with h1 | h1
+    · subst h1; rfl
+    · by_cases hmn : m = n
+      · subst hmn; exact h.noRep m (by rw [hn]; rfl) e h1
+      · exact h.noRep m (by simpa [updSt, hmn] using hm) e h1
+  · intro m
+    by_cases hmn : m = n
+    · subst hmn
+      have h0 : ev.count (Ev.start m) = 0 := List.count_eq_zero.mpr (fun hmem => h.fresh m hn _ hmem rfl)
+      simp [h0]
+    · have : (Ev.start n == Ev.start m) = false := by simpa using fun e => hmn e.symm
+      rw [List.count_cons, this]; simpa using h.cntS m
+  · intro m
+    have : Ev.reports m (Ev.start n) = false := rfl
+    rw [List.countP_cons, this]; simpa using h.cntR m
+
+theorem CountOK.report {st : Name → RS} {ev : List Ev} (h : CountOK st ev) {n : Name} {e : Ev} {x : RS}
+    (hn : (st n).finished = false) (hfin : x.finished = true) (he : ∀ m, e ≠ Ev.start m)
+    (hr : ∀ m, e.reports m = true → m = n) : CountOK (updSt st n x) (e :: ev) := by
+  have hx : x ≠ .none := by intro e1; subst e1; cases hfin
+  constructor
+  · intro m hm e' he'
+    have hmn : m ≠ n := by intro e1; subst e1; simp [updSt] at hm; exact hx hm
+    have hm' : st m = .none := by simpa [updSt, hmn] using hm
+    rcases List.mem_cons.mp he' with h1 | h1
+    · subst h1; exact he m
+    · exact h.fresh m hm' e' h1
+  · intro m hm e' he'
+    rcases List.mem_cons.mp he' with h1 | h1
+    · subst h1
+      cases hrm : e'.reports m with
+      | false => rfl
+      | true =>
+        have hmn := hr m hrm
+        subst hmn
+        simp [updSt, hfin] at hm
+    · by_cases hmn : m = n
+      · subst hmn; exact h.noRep m hn e' h1
+      · exact h.noRep m (by simpa [updSt, hmn] using hm) e' h1
+  · intro m
+    have : (e == Ev.start m) = false := by simpa using he m
+    rw [List.count_cons, this]; simpa using h.cntS m
+  · intro m
+    rw [List.countP_cons]
+    by_cases hmn : m = n
+    · subst hmn
+      have h0 : ev.countP (Ev.reports m) = 0 := by
+        rw [List.countP_eq_zero]; intro e' he'; simp [h.noRep m hn e' he']
+      rw [h0]; split <;> simp
+    · have : e.reports m = false := by
+        cases hrm : e.reports m with
+        | false => rfl
+        | true => exact absurd (hr m hrm) hmn
+      simp [this]; exact h.cntR m
+
 structure AfterInv (inp : Input) (s : Sys) : Prop where
   node : ∀ n nd, s.nodes n = some nd → NodeB (finOf s) nd ∧ TrigIn inp nd.task
   tab : ∀ n td, s.tasks n = some td → TrigIn inp td
   rep : ∀ d, finOf s d = true → s.events.any (Ev.reports d) = true
   aft : afterOK (trigOf inp) s.events = true
+  cnt : CountOK (stOf s) s.events
 
 theorem NodeB.mono {fin fin' : Name → Bool} {nd : Node} (h : NodeB fin nd) (hm : ∀ d, fin d = true → fin' d = true) :
     NodeB fin' nd := by
@@ -58,6 +152,16 @@ theorem AfterInv.congr {inp : Input} {s s' : Sys} (h : AfterInv inp s) (h1 : s'.
   · intro n td ht; rw [h1] at ht; exact h.tab n td ht
   · intro d hd; rw [finOf_congr h4] at hd; rw [h3]; exact h.rep d hd
   · rw [h3]; exact h.aft
+  · have : stOf s' = stOf s := funext fun d => by simp [stOf, h4]
+    rw [this, h3]; exact h.cnt
+
+theorem stOf_setNode_same {s : Sys} {n : Name} {nd x : Node} (hn : s.nodes n = some nd) (hst : x.status = nd.status) :
+    stOf (setNode s n x) = stOf s := by
+  funext d
+  rw [stOf_setNode]
+  split
+  · rename_i e; subst e; simp [stOf, hn, hst]
+  · rfl
 
 /-- replace node `n` by `x`: same status, `x` satisfies the node-local obligations -/
 theorem after_setNode {inp : Input} {s : Sys} {n : Name} {nd x : Node} (h : AfterInv inp s)
@@ -74,6 +178,7 @@ theorem after_setNode {inp : Input} {s : Sys} {n : Name} {nd x : Node} (h : Afte
   · exact h.tab
   · intro d hd; rw [hf] at hd; exact h.rep d hd
   · exact h.aft
+  · rw [stOf_setNode_same hn hst]; exact h.cnt
 
 theorem after_newNode {inp : Input} {s : Sys} {d : Name} {td : TDef} (anc : List Name) (h : AfterInv inp s)
     (hd : s.nodes d = none) (ht : s.tasks d = some td) : AfterInv inp (setNode s d (mkNode td anc)) := by
@@ -92,6 +197,11 @@ theorem after_newNode {inp : Input} {s : Sys} {d : Name} {td : TDef} (anc : List
   · exact h.tab
   · intro k hk; rw [hf] at hk; exact h.rep k hk
   · exact h.aft
+  · have : stOf (setNode s d (mkNode td anc)) = stOf s := by
+      funext k; rw [stOf_setNode]; split
+      · rename_i e; subst e; simp [stOf, hd, mkNode]
+      · rfl
+    rw [this]; exact h.cnt
 
 theorem stOf_registerWaiting (s : Sys) (n : Name) (wf : List Name) (d : Name) :
     stOf (registerWaiting s n wf) d = stOf s d := by
@@ -127,6 +237,8 @@ theorem after_registerWaiting {inp : Input} {s : Sys} (n : Name) (wf : List Name
   · exact h.tab
   · intro d hd; rw [hf] at hd; exact h.rep d hd
   · exact h.aft
+  · have : stOf (registerWaiting s n wf) = stOf s := funext (stOf_registerWaiting s n wf)
+    rw [this]; exact h.cnt
 
 theorem after_genStep {inp : Input} {s : Sys} {n : Name} {nd : Node} (h : AfterInv inp s) (hn : s.nodes n = some nd)
     (d : Name) (ds : List Name) (_hpc : ∃ ds', nd.pc = .taskIter ds') : AfterInv inp (genStep s n nd d (.taskIter ds)) := by
